@@ -89,7 +89,7 @@ class Table:
             return F(0)
         return half_rel(tb.__b__) + half_rel(tb.__c__)
 
-    def resolve(self, tok, own=False):
+    def resolve(self, tok, own=False, den=False):
         """token -> (multiplier, atom, exponent) or None.  own=True: the row's own whole symbol,
         which may not be taken as itself."""
         if not own and tok in self.syms:
@@ -102,6 +102,12 @@ class Table:
             r = self.resolve(m.group(2))
             if r:
                 return (F(int(m.group(1))) * r[0], r[1], r[2])
+        # "ft(100)", "m(30)", "galUK(1000)": N of that unit (the table's spelling of "per 100 ft")
+        m = re.match(r"^(.+)\((\d+)\)$", tok) if den else None  # (in a numerator a parenthesised number is a year or a temperature: ftInd(37))
+        if m:
+            r = self.resolve(m.group(1))
+            if r:
+                return (F(int(m.group(2))) * r[0], r[1], r[2])
         return None
 
     def decompose(self, s):
@@ -120,7 +126,7 @@ class Table:
         own = len(toks) == 1 and toks[0][1] == 1
         res = []
         for t, sg in toks:
-            r = self.resolve(t, own=own)
+            r = self.resolve(t, own=own, den=sg < 0)
             if r is None:
                 return None
             res.append((r, sg))
@@ -201,6 +207,25 @@ def run(ctx):
                         "    row = c06.slope_by_conversion(db, %r)\n    parts = 1.0\n    for (mult, atom, exp), sg in t.decompose(%r):\n        parts *= (float(mult) * c06.slope_by_conversion(db, atom) ** exp) ** sg\n"
                         "    print('row', row, 'composition', parts)\n    assert abs(row - parts) <= %r * abs(parts), (row, parts)\n" % (s, s, float(tol) + 1e-12),
                     )
+                # rows that are a POWER of one part (m3, ft2, 1/ft2, cm2 ...): the part raised through the
+                # exponent-list conversion, asked with +n, then -n, then +n again, agrees with the row
+                if len(dec) == 1 and dec[0][0][0] == 1 and abs(dec[0][0][2]) >= 2 and rel <= tol:
+                    (_mult, atom, exp), sg = dec[0]
+                    aq = db.GetQuantityType(atom)
+                    ab = db.GetBaseUnit(aq)
+                    if db.Convert(aq, atom, ab, 0.0) == 0:
+                        for ne in (exp * sg, -exp * sg, exp * sg):
+                            part.count("evaluations")
+                            try:
+                                g = db.Convert(aq, [(atom, ne)], [(ab, ne)], 1.0)
+                            except Exception as ex:
+                                g = repr(ex)
+                            want = real_row if ne == exp * sg else 1.0 / real_row
+                            if not (isinstance(g, float) and abs(g - want) <= (float(tol) + 1e-11) * abs(want)):
+                                part.violation("C06:row %s vs its part through the exponent-list conversion: db.Convert(%r, [(%r, %d)], [(%r, %d)], 1.0)" % (s, aq, atom, ne, ab, ne), {"got": g, "row_says": want},
+                                               "from mc import worlds\nwith worlds.world('posc') as db:\n    a = db.Convert(%r, [(%r, %d)], [(%r, %d)], 1.0)\n    b = db.Convert(%r, [(%r, %d)], [(%r, %d)], 1.0)\n    print(a, b)\n    assert abs(a * b - 1.0) <= 1e-9\n" % (aq, atom, exp * sg, ab, exp * sg, aq, atom, -exp * sg, ab, -exp * sg))
+                                break
+                        part.count("power_rows")
                 if len(part.samples) < 4 and len(dec) >= 2:
                     part.sample({"row": s, "decomposition": text, "row_factor": float(f), "composition": float(p), "tolerance": float(tol)})
             if pre is not None:
@@ -230,6 +255,7 @@ def run(ctx):
         "decomposed_rows": part.counters.get("decomposed_rows", 0),
         "prefixed_rows": part.counters.get("prefixed_rows", 0),
         "rows_not_decomposable_by_the_grammar": skipped,
+        "power_rows_through_exponent_lists": part.counters.get("power_rows", 0),
     }
     ctx.assumptions = [
         "rows the grammar cannot decompose (parentheses groups, '^', '*', spaces, double slashes, '<...>') are not judged",
